@@ -891,6 +891,46 @@ func (x *Exec) trCall(e *Expr, env *Env) (Term, error) {
 				return tBool(app("select", args[0].S, args[1].S)), nil
 			}
 			return Term{S: app("store", args[0].S, args[1].S, "true"), Sort: args[0].Sort}, nil
+		case "modifiesOnly", "modifiesNone":
+			// modifiesOnly(s, t, ...): in the element heap of these slices, every array other than theirs is as in the old state
+			args, err := trArgs()
+			if err != nil {
+				return Term{}, err
+			}
+			if len(args) == 0 {
+				return Term{}, fmt.Errorf("modifiesOnly(s, ...) needs at least one slice")
+			}
+			var hname string
+			var conds []string
+			for _, a := range args {
+				if a.Sort != SSlice || a.T == nil {
+					return Term{}, fmt.Errorf("modifiesOnly(s, ...) needs slices")
+				}
+				sl, ok := types.Unalias(a.T).Underlying().(*types.Slice)
+				if !ok {
+					return Term{}, fmt.Errorf("modifiesOnly(s, ...) needs slices")
+				}
+				h := x.heapElem(sl.Elem())
+				if hname != "" && h != hname {
+					return Term{}, fmt.Errorf("modifiesOnly: slices of different element types")
+				}
+				hname = h
+				if callee.Name == "modifiesNone" {
+					// modifiesNone(s): no array of s's element heap that existed in the old state has been written
+					continue
+				}
+				conds = append(conds, mkNot(mkEq("r", app("s.arr", a.S))))
+			}
+			h1, h0 := x.get(env.cur, hname).S, x.get(env.old, hname).S
+			if h1 == h0 {
+				return tTrue(), nil
+			}
+			if _, ok := x.vc.heapSort[allocVar]; !ok {
+				x.vc.heapSort[allocVar] = SInt
+			}
+			// arrays allocated since the old state are new, not modified
+			conds = append(conds, app("<", "r", x.get(env.old, allocVar).S))
+			return tBool(fmt.Sprintf("(forall ((r Int)) (! (=> %s (= (select %s r) (select %s r))) :pattern ((select %s r))))", mkAnd(conds...), h1, h0, h1)), nil
 		case "fresh":
 			// fresh(s): the slice's backing array (or the pointer's object) was allocated after the function was entered
 			args, err := trArgs()
@@ -911,13 +951,17 @@ func (x *Exec) trCall(e *Expr, env *Env) (Term, error) {
 				return tBool(mkOr(app("=", args[0].S, "0"), app(">=", args[0].S, a0))), nil
 			}
 			return Term{}, fmt.Errorf("fresh(x) needs a slice or a pointer")
-		case "sameArray":
+		case "sameArray", "sameBase":
 			args, err := trArgs()
 			if err != nil {
 				return Term{}, err
 			}
 			if len(args) != 2 || args[0].Sort != SSlice || args[1].Sort != SSlice {
-				return Term{}, fmt.Errorf("sameArray(s, t) needs two slices")
+				return Term{}, fmt.Errorf("%s(s, t) needs two slices", callee.Name)
+			}
+			if callee.Name == "sameBase" {
+				// same array, same starting offset, same capacity: the two slices differ at most in length
+				return tBool(mkAnd(mkEq(app("s.arr", args[0].S), app("s.arr", args[1].S)), mkEq(app("s.off", args[0].S), app("s.off", args[1].S)), mkEq(app("s.cap", args[0].S), app("s.cap", args[1].S)))), nil
 			}
 			return tBool(mkEq(app("s.arr", args[0].S), app("s.arr", args[1].S))), nil
 		case "hasPrefix", "hasSuffix":
